@@ -53,6 +53,7 @@ def main():
     ap.add_argument("--suite", action="store_true")
     ap.add_argument("--seed", default="1")
     ap.add_argument("-v", action="store_true")
+    ap.add_argument("--expect-pass", action="store_true", help="the patch is a candidate repair: the check must exit 0")
     a = ap.parse_args()
     pid = a.property.upper()
     if a.patch:
@@ -86,7 +87,10 @@ def main():
             rc, out, wall = run_check(pid, d, a.tier, only, a.seed)
             viol = [l for l in out.splitlines() if l.startswith("VIOLATION")]
             status = "DETECTED" if rc == 1 and viol else ("HARNESS-ERROR" if rc == 2 else "MISSED")
-            if status != "DETECTED":
+            if a.expect_pass:
+                status = "QUIET" if rc == 0 else status
+                bad += status != "QUIET"
+            elif status != "DETECTED":
                 bad += 1
             suite = ""
             if a.suite:
